@@ -31,6 +31,10 @@ pub struct Scenario {
     pub rng_seed: u64,
     pub fault_seed: u64,
     pub only: Option<usize>,
+    /// if set: additionally verify a batch of this many members with pairwise different contexts
+    /// and require that each member's challenges are those of its own (statement, proof, context)
+    #[serde(default)]
+    pub large_batch: Option<usize>,
 }
 
 pub struct C04;
@@ -296,6 +300,75 @@ fn run<G: Group>(sc: &Scenario, st: &mut RunStats) -> Vec<Violation> {
             }
         }
     }
+    // beyond the chunk limit: every member's transcript must still be bound to that member
+    if let (Some(k), None) = (sc.large_batch, sc.only.filter(|o| *o != 30_000)) {
+        let lcfg = Config { bits: 2, m: 1, cap: 1, ext: sc.cfg.ext };
+        let mut msgs: Vec<Msg<G>> = Vec::with_capacity(k);
+        for i in 0..k {
+            let w = WitnessSpec { values: vec![(i % 4) as u64], promises: vec![None], blind_seed: sc.fault_seed ^ (i as u64) << 8, seed_nonce: None, zero_blind: vec![] };
+            let c = Context { label: i % LABELS.len(), extra: Some((i as u32).to_le_bytes().to_vec()) };
+            let b = build::<G>(&lcfg, &w);
+            match prove_mode::<G>(&c, &b.statement, &b.witness, &RngMode::Healthy(sc.rng_seed ^ i as u64)).0 {
+                Ok(Ok(p)) => msgs.push(Msg::<G>::honest(&lcfg, &w, &c, &b, &p)),
+                _ => {
+                    out.push(Violation::new("harness:prover_failed", "setup", "large batch member".to_string()));
+                    return out;
+                },
+            }
+        }
+        let mut sts = Vec::with_capacity(k);
+        let mut prs = Vec::with_capacity(k);
+        for m in &msgs {
+            match guarded(|| m.open()) {
+                Ok(Delivered::Ready(s_, p)) => {
+                    sts.push(s_);
+                    prs.push(p);
+                },
+                _ => {
+                    out.push(Violation::new("harness:prover_failed", "setup", "large batch member does not open".to_string()));
+                    return out;
+                },
+            }
+        }
+        tap::start();
+        let mut trs: Vec<merlin::Transcript> = msgs.iter().map(|m| m.ctx.transcript()).collect();
+        let tids: Vec<u64> = trs.iter().map(|t| t.tap_id()).collect();
+        let r = guarded(|| G::verify(&mut trs, &sts, &prs, VerifyAction::VerifyOnly));
+        let events = tap::stop();
+        st.evals += 1;
+        st.fault("large_batch_distinct_contexts");
+        st.event(format!("large batch k={} -> {}", k, match &r { Ok(Ok(_)) => "Ok", Ok(Err(_)) => "Err", Err(_) => "PANIC" }));
+        if let Err(c) = &r {
+            out.push(Violation::new("verifier_panicked", "panic", format!("{:?}", c)));
+            return out;
+        }
+        for sidx in [0usize, 1, 255, 256, k - 1] {
+            if sidx >= k {
+                continue;
+            }
+            let in_batch = TranscriptView::from_events(&events, tids[sidx]).map(|v| v.challenges).unwrap_or_default();
+            let alone = match verifier_challenges(&msgs[sidx]) {
+                Ok(Some(c)) => c,
+                _ => continue,
+            };
+            st.evals += 1;
+            if in_batch != alone {
+                out.push(Violation::new(
+                    "challenge_not_bound_to_own_context",
+                    "large batch",
+                    format!(
+                        "batch of {} members with pairwise different transcript contexts: the challenges drawn on member {}'s transcript are not those of member {}'s own (statement, proof, context) — {} challenges in the batch vs {} alone",
+                        k,
+                        sidx,
+                        sidx,
+                        in_batch.len(),
+                        alone.len()
+                    ),
+                ));
+                return out;
+            }
+        }
+    }
     // prover side: data that can be changed without touching anything else
     if let Some(pbase) = &pc {
         let mut variants: Vec<(String, Config, WitnessSpec, Context)> = Vec::new();
@@ -406,6 +479,7 @@ impl Check for C04 {
             rng_seed: rng.next_u64(),
             fault_seed: rng.next_u64(),
             only: None,
+            large_batch: if !ristretto && index % 16 == 5 { Some(*rng.pick(&[257usize, 300, 513])) } else { None },
         }
     }
 
@@ -431,6 +505,14 @@ impl Check for C04 {
                 s.only = Some(20_000 + i);
                 v.push(s);
             }
+            if sc.large_batch.is_some() {
+                let mut s = sc.clone();
+                s.only = Some(30_000);
+                v.push(s);
+                let mut s = sc.clone();
+                s.large_batch = None;
+                v.push(s);
+            }
         }
         if sc.group != "free" {
             let mut s = sc.clone();
@@ -444,7 +526,7 @@ impl Check for C04 {
         vec![
             "verifier_context_label", "verifier_context_extra", "verifier_generator_h", "verifier_generator_g", "verifier_bits",
             "verifier_replace_commitment", "verifier_promise", "verifier_swap_commitments", "verifier_replace_point",
-            "prover_side_perturbation", "batch_refused_before_challenges",
+            "prover_side_perturbation", "batch_refused_before_challenges", "large_batch_distinct_contexts",
         ]
     }
 }
